@@ -228,7 +228,7 @@ func paramName(x *ssa.Parameter) string {
 	}
 	for i, pp := range fn.Params {
 		if pp == x {
-			if fn.Signature.Recv() != nil {
+			if fn.Signature.Recv() != nil || recvLike[fn] {
 				if i == 0 {
 					return "recv"
 				}
@@ -356,8 +356,13 @@ func FuncShort(f *ssa.Function) string {
 	} else if o := f.Object(); o != nil && o.Pkg() != nil {
 		pk = o.Pkg().Name()
 	}
-	if f.Signature.Recv() != nil {
-		t := f.Signature.Recv().Type()
+	if f.Signature.Recv() != nil || recvLike[f] {
+		var t types.Type
+		if f.Signature.Recv() != nil {
+			t = f.Signature.Recv().Type()
+		} else {
+			t = f.Params[0].Type() // a package function standing in for a method
+		}
 		star := ""
 		if pt, ok := t.(*types.Pointer); ok {
 			t = pt.Elem()
